@@ -164,8 +164,11 @@ class ASTRewriter(ast.NodeTransformer):
             else:
                 outer_tuple = gtype.slice
                 max_i = len(outer_tuple.elts) - 1
-                inner_tuple = outer_tuple.elts
-                max_j = len(inner_tuple) - 1
+                # the number of columns is the length of a row, not the number of rows
+                inner_tuple = outer_tuple.elts[0]
+                if isinstance(inner_tuple, ast.Subscript):
+                    inner_tuple = inner_tuple.slice
+                max_j = len(inner_tuple.elts) - 1
 
             # Create the IfExp structure
             return create_if_exp(nname, iname, max_i, jname, max_j)
@@ -366,6 +369,10 @@ class ASTRewriter(ast.NodeTransformer):
                 and isinstance(_sval.slice, ast.Tuple)
                 and isinstance(arg.slice, ast.Constant)
             ):
+                # the elements of row arg.slice.value: as many as that row has (not as many as rows)
+                row = _sval.slice.elts[arg.slice.value]
+                if isinstance(row, ast.Subscript):
+                    row = row.slice
                 return [
                     ast.Subscript(
                         value=ast.Subscript(
@@ -374,7 +381,7 @@ class ASTRewriter(ast.NodeTransformer):
                         ),
                         slice=ast.Constant(value=i, kind=None),
                     )
-                    for i in range(len(_sval.slice.elts))
+                    for i in range(len(row.elts))
                 ]
         elif isinstance(arg, ast.Name):
             # If it's a name, is in env and is a Tuple, return elements
